@@ -311,7 +311,12 @@ def gen(seed, n):
                    (F(1e308), F(1e308)), (F(1e308), F(5e-324)), (F(0.1), F(0.2)), (F(B - 1), F(B - 1)),
                    (F(B * B - 1), F(B * B - 1)), (F(2 ** 64 - 1), F(2 ** 64 - 1)), (F(3037000500), F(3037000500)),
                    (F(1, 2), F(1, 2)), (F(3, 2), F(-1, 2)), (F(B - 1), F(1)), (F(B * B * B - 1), F(1)),
-                   (F(B * B * B), F(-1)), (F(B ** 5), F(-1))]
+                   (F(B * B * B), F(-1)), (F(B ** 5), F(-1)),
+                   # edges of the native (< 2^30) fast path
+                   (F(2 ** 30 - 1), F(2 ** 30 - 1)), (F(-(2 ** 30 - 1)), F(-(2 ** 30 - 1))), (F(2 ** 30 - 1), F(1)),
+                   (F(2 ** 30), F(2 ** 30)), (F(2 ** 30 - 1), F(-(2 ** 30))), (F(2 ** 29), F(2 ** 29)),
+                   (F(3 * 2 ** 28), F(1)), (F(3 * 2 ** 28), F(3 * 2 ** 28)), (F(2 ** 30 - 1), F(1, 2)),
+                   (F(32767), F(32767, 2 ** 15)), (F(32767) * 2 ** 15, F(32767)), (F(32767) * 2 ** 16, F(1))]
     for a, b in many(arith_fixed, arith_pair):
         add("add", a=bn(a), b=bn(b), r=bn(a + b))
     for a, b in many(arith_fixed, arith_pair):
@@ -366,6 +371,8 @@ def gen(seed, n):
                 (2 ** 63 - 1, 2), (2 ** 63 - 1, 2 ** 63 - 1), (2 ** 63 - 1, -(2 ** 63)), (-(2 ** 63), 2 ** 63 - 1),
                 (10 ** 18, 10), (10 ** 18, 3), (2 ** 62, 2 ** 31), (2 ** 62 + 5, 2 ** 31), (6, 3), (B * B, B),
                 (B ** 4 - 1, B ** 2 - 1), (B ** 4 - 1, B ** 2 + 1), (2 ** 63 - 1, B ** 3 + B - 1),
+                (2 ** 30 - 1, 1), (2 ** 30 - 1, 2 ** 30 - 1), (2 ** 30, 3), (2 ** 30 - 1, -7), (-(2 ** 30 - 1), 2 ** 15),
+                (2 ** 30 - 1, 2 ** 30), (2 ** 30, 2 ** 30 - 1), (-(2 ** 30), 2 ** 30 - 1), (3 * 2 ** 28, 2 ** 28), (2 ** 31, 2 ** 30 - 1),
                 (2 ** 60, 2 ** 45 - 1), (0x7FFF7FFF7FFF7FFF, 0x7FFF0000FFFF), (0x7FFF00000000FFFF, 0x7FFF0000FFFF)]
 
     def qr_pair():
